@@ -621,8 +621,21 @@ func (e *Enc) closurePre(mc *ssa.MakeClosure, st *State) {
 			if !mentions(r.E, name) {
 				continue
 			}
-			if storeReachableAfter(mc, a) || storesToFreeVar(fn, name) {
+			if storeReachableAfter(mc, a) {
 				stable = "false"
+			}
+			if storesToFreeVar(fn, name) {
+				// the closure itself assigns the variable: fine if it re-establishes the precondition (same clause
+				// among its postconditions, proved when the closure is verified)
+				re := false
+				for _, en := range con.Ensures {
+					if strings.Contains(strings.Join(strings.Fields(en.Src), ""), strings.Join(strings.Fields(r.Src), "")) {
+						re = true
+					}
+				}
+				if !re {
+					stable = "false"
+				}
 			}
 		}
 		e.obligeClause("pre-closure:"+fn.Name(), r, mc.Pos(), and(f, stable))
